@@ -11,10 +11,24 @@
                                                                -> ten `|`-separated groups (nested groups `;`-separated) | `E`
         `ce <idx> <uid hex> <ref hex> <pack hex | - (None) | + (empty string)>`  AudioID.asByteArray -> `<hex>` | `E`
         `cd <hex>`                       reader entry decode   -> `<idx> <uid hex> <ref hex> <pack hex | ->` | `E`
+        `xp ; <row> ; ... ; <tree>`     ElementParser.parse with the given property rows (hand-written handlers
+                                         replaced by frame-respecting stubs) -> `K <arg> <val> ...` | `E`
+        `xt ; <row> ; ... ; <name> <n> (<arg> <val>)*`   ElementParser.to_xml of the declarative rows -> `<tree>`
+          strings are `=` followed by `.`-separated hex code points; a row is
+          `kind adm arg ty handlerDefault required parseOnly label enum` with enum `~` or `name:val,...`;
+          a tree is `N <ns|~> <name> <nattrs> (<key> <value>)* <text> <nchildren> <tree>*`;
+          a value is `n` | `s<str>` | `i<int>` | `b0` | `b1` | `tD<num>/<den>` | `tF<n>/<d>` | `f<k>` |
+          `e<name>:<val>` | `L<count> <val>*`
+        `hp <freq|jump|ds> <tree>`      the hand-written handler on the children of the tree (visiting order)
+                                         -> freq `<low|~> <high|~>`, jump `<0|1> <k|~>`,
+                                            ds `<P|C> (<value> <min|~> <max|~>){3} <horizontal|~> <vertical|~>` | `E`
+        `hx <freq|jump|ds> <value as above>`   the matching to_xml -> `<tree>` (a `parent` element holding the output)
    out: `bad-op` for a malformed line. -/
 import Earverif.Model.TimeFormat
 import Earverif.Model.GenIds
 import Earverif.Model.Chna
+import Earverif.Model.XmlLeaf
+import Earverif.Model.XmlCustom
 import Earverif.Driver.Util
 open Earverif.Driver Earverif.Digits
 
@@ -86,6 +100,232 @@ def answerGi (rest : String) : String :=
     | _, _, _, _, _ => "bad-op"
   | _ => "bad-op"
 
+/-! ### combinator layer -/
+section Codec
+open Earverif.XmlCodec
+
+def decStr? (w : String) : Option String :=
+  match w.toList with
+  | '=' :: rest =>
+    if rest.isEmpty then some "" else
+    ((String.ofList rest).splitOn ".").mapM (fun h => do
+      let n ← hexNum? h
+      if n.isValidChar then some (Char.ofNat n) else none) |>.map String.ofList
+  | _ => none
+
+def encStr (s : String) : String :=
+  "=" ++ ".".intercalate (s.toList.map fun c => String.ofList (Nat.toDigits 16 c.toNat))
+
+def bool? (w : String) : Option Bool := if w = "1" then some true else if w = "0" then some false else none
+
+def enum? (w : String) : Option (List (String × Nat)) :=
+  if w = "~" then some [] else
+  (w.splitOn ",").mapM fun e => match e.splitOn ":" with
+    | [n, v] => do some (← decStr? n, ← v.toNat?)
+    | _ => none
+
+def row? (ws : List String) : Option Row :=
+  match ws with
+  | [kind, adm, arg, ty, hd, req, po, label, en] => do
+    some ⟨← decStr? kind, ← decStr? adm, ← decStr? arg, ← decStr? arg, ← decStr? ty, ← decStr? hd, "-",
+      ← bool? req, ← bool? po, ← decStr? label, ← enum? en, "-"⟩
+  | _ => none
+
+/-- stand-ins for the hand-written handlers: they accept anything, leave every other argument alone and
+(when they own an argument) mark it as present; they write nothing -/
+def stubImpl (r : Row) : CustomImpl Leaf :=
+  ⟨fun kw _ => some (match optArg r.argName with
+      | some a => if r.kind = "CustomElement" then kw.set a (.one .none) else kw
+      | none => kw),
+   fun _ => [], fun _ => []⟩
+
+partial def tree? : List String → Option (Xml × List String)
+  | "N" :: ns :: name :: na :: rest => do
+    let ns ← if ns = "~" then some none else (decStr? ns).map some
+    let name ← decStr? name
+    let na ← na.toNat?
+    let rec attrs (n : Nat) (ws : List String) (acc : List (String × String)) :
+        Option (List (String × String) × List String) :=
+      match n, ws with
+      | 0, ws => some (acc.reverse, ws)
+      | n + 1, k :: v :: ws => do attrs n ws ((← decStr? k, ← decStr? v) :: acc)
+      | _, _ => none
+    let (as, rest) ← attrs na rest []
+    match rest with
+    | text :: nc :: rest => do
+      let text ← decStr? text
+      let nc ← nc.toNat?
+      let rec kids (n : Nat) (ws : List String) (acc : List Xml) : Option (List Xml × List String) :=
+        match n with
+        | 0 => some (acc.reverse, ws)
+        | n + 1 => do
+          let (c, ws) ← tree? ws
+          kids n ws (c :: acc)
+      let (cs, rest) ← kids nc rest []
+      some (.node ⟨ns, name⟩ as cs text, rest)
+    | _ => none
+  | _ => none
+
+partial def showTree : Xml → String
+  | .node tag as cs text =>
+    " ".intercalate (["N", (match tag.ns with | some n => encStr n | none => "~"), encStr tag.name,
+      toString as.length] ++ as.flatMap (fun kv => [encStr kv.1, encStr kv.2]) ++ [encStr text, toString cs.length]
+      ++ cs.map showTree)
+
+def showLeaf : Leaf → String
+  | .none => "n"
+  | .str s => "s" ++ encStr s
+  | .int i => s!"i{i}"
+  | .bool b => if b then "b1" else "b0"
+  | .time (.dec q) => s!"tD{q.num}/{q.den}"
+  | .time (.frac n d) => s!"tF{n}/{d}"
+  | .num k => s!"f{k}"
+  | .enum n v => "e" ++ encStr n ++ s!":{v}"
+
+def showVal : Val Leaf → String
+  | .one v => showLeaf v
+  | .many vs => " ".intercalate (s!"L{vs.length}" :: vs.map showLeaf)
+
+def leaf? (w : String) : Option Leaf :=
+  match w.toList with
+  | ['n'] => some .none
+  | 's' :: r => (decStr? (String.ofList r)).map .str
+  | 'i' :: r => (String.ofList r).toInt?.map .int
+  | ['b', '0'] => some (.bool false)
+  | ['b', '1'] => some (.bool true)
+  | 't' :: 'D' :: r => match (String.ofList r).splitOn "/" with
+    | [a, b] => do
+      let d ← b.toNat?
+      if d = 0 then none else some (.time (.dec (mkRat (← a.toInt?) d)))
+    | _ => none
+  | 't' :: 'F' :: r => match (String.ofList r).splitOn "/" with
+    | [a, b] => do some (.time (.frac (← a.toNat?) (← b.toNat?)))
+    | _ => none
+  | 'f' :: r => (String.ofList r).toInt?.map .num
+  | 'e' :: r => match (String.ofList r).splitOn ":" with
+    | [a, b] => do some (.enum (← decStr? a) (← b.toNat?))
+    | _ => none
+  | _ => none
+
+def takeLeaves : Nat → List String → List Leaf → Option (List Leaf × List String)
+  | 0, ws, acc => some (acc.reverse, ws)
+  | n + 1, w :: ws, acc => do takeLeaves n ws ((← leaf? w) :: acc)
+  | _, _, _ => none
+
+def objArgs : Nat → List String → List (String × Val Leaf) → Option (List (String × Val Leaf))
+  | 0, [], acc => some acc
+  | 0, _, _ => none
+  | n + 1, a :: v :: ws, acc =>
+    match v.toList with
+    | 'L' :: c => do
+      let (vs, ws) ← takeLeaves (← (String.ofList c).toNat?) ws []
+      objArgs n ws ((← decStr? a, .many vs) :: acc)
+    | _ => do objArgs n ws ((← decStr? a, .one (← leaf? v)) :: acc)
+  | _, _, _ => none
+
+def dedup (xs : List String) : List String := xs.foldl (fun acc x => if acc.contains x then acc else acc ++ [x]) []
+
+def answerX (line : String) : String :=
+  match (line.splitOn ";").map words with
+  | [op] :: sections =>
+    match sections.reverse with
+    | last :: rowsRev =>
+      match rowsRev.reverse.mapM row? with
+      | none => "bad-op"
+      | some rows =>
+        let ps := ofRows stubImpl rows
+        if op = "xp" then
+          match tree? last with
+          | some (e, []) =>
+            match parseKw ps e with
+            | none => "E"
+            | some kw =>
+              let args := dedup (rows.filterMap fun r => if r.argName = "-" then none else some r.argName)
+              " ".intercalate ("K" :: args.filterMap fun a => (kw a).map fun v => encStr a ++ " " ++ showVal v)
+          | _ => "bad-op"
+        else if op = "xt" then
+          match last with
+          | name :: n :: rest =>
+            match decStr? name, n.toNat? with
+            | some name, some n =>
+              match objArgs n rest [] with
+              | some kvs =>
+                let o : Obj Leaf := fun a => match kvs.find? (·.1 == a) with
+                  | some kv => kv.2
+                  | none => .one .none
+                showTree (toXml ps name o)
+              | none => "bad-op"
+            | _, _ => "bad-op"
+          | _ => "bad-op"
+        else "bad-op"
+    | [] => "bad-op"
+  | _ => "bad-op"
+
+end Codec
+
+/-! ### exactly modelled hand-written handlers -/
+section Custom
+open Earverif.XmlCodec Earverif.XmlCustom
+
+def optInt? (w : String) : Option (Option Int) := if w = "~" then some none else w.toInt?.map some
+def optStr? (w : String) : Option (Option String) := if w = "~" then some none else (decStr? w).map some
+def showOptInt : Option Int → String | some i => toString i | none => "~"
+def showOptStr : Option String → String | some s => encStr s | none => "~"
+def showBound (b : Bound) : String := s!"{b.value} {showOptInt b.min} {showOptInt b.max}"
+
+def bound? : List String → Option (Bound × List String)
+  | v :: mn :: mx :: rest => do some (⟨← v.toInt?, ← optInt? mn, ← optInt? mx⟩, rest)
+  | _ => none
+
+def parentOf (cs : List Xml) : String := showTree (.node ⟨none, "parent"⟩ [] cs "")
+
+def answerH (ws : List String) : String :=
+  match ws with
+  | "hp" :: which :: rest =>
+    match tree? rest with
+    | some (e, []) =>
+      if which = "freq" then
+        match parseFrequency e.children with
+        | some f => s!"{showOptInt f.lowPass} {showOptInt f.highPass}"
+        | none => "E"
+      else if which = "jump" then
+        match parseJumpPosition e.children with
+        | some j => s!"{if j.flag then 1 else 0} {showOptInt j.interpolationLength}"
+        | none => "E"
+      else if which = "ds" then
+        match parseSpeakerPosition e.children with
+        | some (.polar a b c s) =>
+          s!"P {showBound a} {showBound b} {showBound c} {showOptStr s.horizontal} {showOptStr s.vertical}"
+        | some (.cartesian a b c s) =>
+          s!"C {showBound a} {showBound b} {showBound c} {showOptStr s.horizontal} {showOptStr s.vertical}"
+        | none => "E"
+      else "bad-op"
+    | _ => "bad-op"
+  | ["hx", "freq", lo, hi] =>
+    match optInt? lo, optInt? hi with
+    | some lo, some hi => parentOf (frequencyToXml ⟨lo, hi⟩)
+    | _, _ => "bad-op"
+  | ["hx", "jump", fl, il] =>
+    match bool? fl, optInt? il with
+    | some fl, some il => parentOf (jumpPositionToXml ⟨fl, il⟩)
+    | _, _ => "bad-op"
+  | "hx" :: "ds" :: kind :: rest =>
+    match (do
+      let (a, r) ← bound? rest
+      let (b, r) ← bound? r
+      let (c, r) ← bound? r
+      match r with
+      | [h, v] => some (a, b, c, (⟨← optStr? h, ← optStr? v⟩ : ScreenEdgeLock))
+      | _ => none) with
+    | some (a, b, c, s) =>
+      if kind = "P" then parentOf (speakerPositionToXml (.polar a b c s))
+      else if kind = "C" then parentOf (speakerPositionToXml (.cartesian a b c s))
+      else "bad-op"
+    | none => "bad-op"
+  | _ => "bad-op"
+
+end Custom
+
 def answer (line : String) : String :=
   match words line with
   | "tp" :: ws =>
@@ -108,6 +348,10 @@ def answer (line : String) : String :=
       if d = 0 ∨ 1 < af then "bad-op" else
       showUnparsed (Earverif.TimeFormat.unparseTime (af == 1) (.frac n d))
     | _, _, _ => "bad-op"
+  | "hp" :: rest => answerH ("hp" :: rest)
+  | "hx" :: rest => answerH ("hx" :: rest)
+  | "xp" :: _ => answerX line
+  | "xt" :: _ => answerX line
   | "gi" :: _ => answerGi ((line.dropWhile (· == ' ')).drop 2).toString
   | ["ce", idx, uid, ref, pack] =>
     match idx.toNat?, bytes? uid, bytes? ref, bytes? pack with
